@@ -37,7 +37,7 @@ fn cfg() -> AspCfg {
     AspCfg {
         // one name at two arities: completion, tightness and the reference are all keyed by (name, arity)
         preds: vec![("p".into(), 1), ("p".into(), 2), ("q".into(), 1), ("q".into(), 0), ("r".into(), 2), ("s".into(), 0), ("d".into(), 1)],
-        vars: vec!["X".into(), "Y".into(), "V1".into(), "Z".into(), "Z1".into()],
+        vars: vec!["X".into(), "Y".into(), "V1".into(), "V2".into(), "V3".into(), "Z".into(), "Z1".into()],
         syms: vec!["a".into()],
         num_lo: -1,
         num_hi: 3,
@@ -50,7 +50,15 @@ fn cfg() -> AspCfg {
 }
 
 pub fn head_free_predicates(p: &asp::Program) -> Vec<(String, usize)> {
-    let heads: Vec<(String, usize)> = p.head_predicates().into_iter().map(|x| (x.symbol, x.arity)).collect();
+    // (own traversal: the reference must not rely on the code under test)
+    let heads: Vec<(String, usize)> = p
+        .rules
+        .iter()
+        .filter_map(|r| match &r.head {
+            asp::Head::Basic(a) | asp::Head::Choice(a) => Some((a.predicate_symbol.clone(), a.terms.len())),
+            asp::Head::Falsity => None,
+        })
+        .collect();
     program_preds(p).into_iter().filter(|x| !heads.contains(x)).collect()
 }
 
